@@ -75,18 +75,26 @@ RULE = ("scripts of write / write_char / flush / out! / outln! over all 12 integ
         "'-') fits exactly / by one byte more or less; writers moved to another address with data pending (`mv`); TWO "
         "writers alive with interleaved operations, each observed once (the other one compared with to_string inside "
         "the executor); scripts run in a child process through the real make_io! (stdout lock, drop by leaving the "
-        "function); sinks accepting 1..k bytes per write call with Interrupted results injected; read back through "
+        "function), and through make_io! executed 2..4 times one after the other in ONE child process (each in its own "
+        "function scope, the earlier Writer and Reader dropped; the script's pieces split between the invocations, an "
+        "invocation that writes nothing / more than BUF, a marker printed with plain print! between two invocations, "
+        "invocations on a spawned thread, values taken from the child's stdin through the reader of a later invocation, "
+        "standard output a pipe / an empty regular file / a regular file holding an earlier line that must survive; the "
+        "child's complete standard output is compared); a writer dropped and a NEW writer made over the SAME scripted "
+        "sink (`nw`, the sink's length right after the drop is checked like a flush point); sinks accepting 1..k bytes per write call with Interrupted results injected; read back through "
         "Reader element by element (integers, string tokens), with read_vec / the tuple impls, and with read_lines; "
         "each case runs on the debug (flush per write; the executor verifies after every operation that nothing is left "
         "pending) and the release (buffered) executor and is compared with the model instantiated with the hook's "
         "BUF_SIZE and the profile's flush_each_write; all cases are additionally run on a buffered build with overflow "
         "checks and must be answered as by the release build; non-trivial = at least two pieces and a non-empty output")
 TRUSTED = ["executor harness/crates/c09 (drives rlib_io::Writer through write/write_char/flush/out!/outln!/make_io!/drop "
-           "into a scripted sink (a pipe for make_io!), prints the received bytes; compares with to_string, reads back "
+           "into a scripted sink (a pipe or a regular file for make_io!; for `e` operations it pipes the values' renderings "
+           "into the child's stdin; a lost earlier line of the file is reported as F!earlier-file-content), prints the received bytes; compares with to_string, reads back "
            "through rlib_io::Reader; for the second writer of a two-writer case and for the debug flush-per-write only "
            "its own verdict (F!other / F!dbgflush) reaches Coq)",
-           "checks/c09.py (case generator, run-length / period encoding of long byte strings, Coq term printer; `mv` is "
-           "not an event of the model)",
+           "checks/c09.py (case generator, run-length / period encoding of long byte strings, Coq term printer; `mv` and `nx` are "
+           "not events of the model, `nw` is printed as OFlush, a print! marker as the write of that string, `e` as "
+           "the write of the value fed to stdin)",
            "std::io::Write::write_all (oracle: delivers its argument whatever partial writes/Interrupted the sink answers)",
            "<[u8]>::chunks, unsigned_abs of std (modelled by their documented contracts)"]
 ASSUMPTIONS = ["usize/isize are 64-bit (the target the executor is built for)",
@@ -143,8 +151,12 @@ def op_tokens(o):
         return ["w"] + val_tokens(o[1])
     if k == "c":
         return ["c", str(o[1])]
-    if k in ("f", "mv"):
+    if k in ("f", "mv", "nw"):
         return [k]
+    if k == "nx":
+        return ["nx", hx(o[1]), str(o[2])]
+    if k == "e":
+        return ["e"] + val_tokens(o[1])
     toks = [k, str(len(o[1]))]
     for x in o[1]:
         toks += val_tokens(x)
@@ -170,7 +182,7 @@ def harness_line(c):
     if c.get("query"):
         return "Q"
     if c.get("makeio"):
-        toks = ["M", str(c.get("rt", 0))]
+        toks = ["M", str(c.get("rt", 0)), str(c.get("out", 0)), str(c.get("thr0", 0))]
         for o in c["ops"]:
             toks += op_tokens(o)
         return " ".join(toks)
@@ -320,8 +332,26 @@ def op_term(o):
 
 
 def ops_term(c):
-    # `mv` (the writer is moved to another address) is not an event of the model: a move cannot change anything
-    return "; ".join(op_term(x) for x in c["ops"] if x[0] != "mv")
+    # `mv` (the writer is moved to another address) is not an event of the model: a move cannot change anything.
+    # `nw` (S: the writer is dropped, a new one is made over the same sink): for the sink this is an explicit flush,
+    # the executor reports the sink's length right after the drop as a flush point -> OFlush.
+    # `nx` (M: the next make_io! in the same child process): no event; a marker printed with print! in between is
+    # part of what standard output has to show -> written like a string.  `e` (M: value read from stdin through the
+    # reader of make_io!, then written) -> the write of that value.  No new constructor: same terms, same proofs.
+    out = []
+    for x in c["ops"]:
+        k = x[0]
+        if k == "mv" or (k == "nx" and not x[1]):
+            continue
+        if k == "nw":
+            out.append("OFlush")
+        elif k == "nx":
+            out.append(op_term(["w", ["s", x[1]]]))
+        elif k == "e":
+            out.append(op_term(["w", x[1]]))
+        else:
+            out.append(op_term(x))
+    return "; ".join(out)
 
 
 def parse_obs(obs):
@@ -360,9 +390,9 @@ def coq_term(c, obs, profile):
 def pieces(c):
     n = 0
     for o in c["ops"]:
-        if o[0] in ("w", "c"):
+        if o[0] in ("w", "c", "e") or (o[0] == "nx" and o[1]):
             n += 1
-        elif o[0] in ("f", "mv"):
+        elif o[0] in ("f", "mv", "nw", "nx"):
             pass
         elif o[0] in ("o", "ol"):
             n += len(o[1]) + 1
@@ -779,6 +809,68 @@ def token_script(rng):
     return ops
 
 
+def with_renew(rng, ops, chance):
+    """now and then the writer's life ends (drop) and a NEW writer is made over the same sink (S cases only)"""
+    if rng.chance(1, chance):
+        ops = list(ops)
+        for _ in range(rng.choice([1, 1, 2, 3])):
+            ops.insert(rng.range(0, len(ops)), ["nw"])
+    return ops
+
+
+def echo_val(rng):
+    t = rng.choice(TYS)
+    k = rng.below(6)
+    if k == 0:
+        return [rng.choice(["s", "r"]), token(rng)]
+    if k == 1:
+        return ["i", t, rng.choice(lo_hi(t))]
+    return ["i", t, rand_int(rng, t)]
+
+
+def makeio_multi_case(rng, j):
+    """make_io! 2..4 times one after the other in ONE child process (a solve() per test case that sets its I/O up
+    itself): each in its own function scope, so the Writer (and Reader) of an invocation is dropped before the next
+    one is made; the pieces of one script are split between the invocations; the child's complete standard output is
+    compared with the rendering of the whole script.  Variations: an invocation that writes nothing, one that writes
+    more than BUF, a newline-terminated marker printed with plain print! between two invocations (standard output has to stay
+    usable for the rest of the program), an invocation on a spawned thread, values that come from the child's stdin through the
+    `reader` of ONE invocation (after earlier invocations' readers were dropped), standard output redirected to a
+    regular file (empty / holding an earlier line that has to survive)."""
+    n_inv = 2 + j % 3
+    tokens = j % 3 != 2
+    rt = (rng.choice([1, 3]) if tokens else 2)
+    parts = []
+    for k in range(n_inv):
+        if rng.chance(1, 7):
+            part = []
+        elif tokens:
+            part = token_script(rng)
+        else:
+            part = rand_script(rng, rng.range(1, 5))
+        parts.append([o for o in part if o[0] != "f"])
+    if j % 8 == 5:      # one invocation writes more than the buffer and more than a pipe holds
+        k = rng.below(n_inv)
+        parts[k] = parts[k] + [["w", fill(rng, 97 + rng.below(26), BUF[0] + rng.range(1, 5000))], ["c", 10]]
+        rt = 0
+    if j % 3 == 1:      # input: through the reader of ONE invocation (a Reader keeps what it read ahead to itself)
+        k = rng.below(n_inv)
+        # only where a token ends (after a blank / newline, or at the start): the script stays readable
+        safe = [0] + [i + 1 for i, o in enumerate(parts[k]) if o[0] == "ol" or (o[0] == "c" and o[1] in (32, 10, 9, 13))]
+        for at in sorted((rng.choice(safe) for _ in range(rng.range(1, 4))), reverse=True):
+            parts[k][at:at] = [["e", echo_val(rng)], ["c", rng.choice([32, 10])]]
+    ops = []
+    for k, part in enumerate(parts):
+        if k:
+            # a marker ends its line: std's stdout is line buffered, so print! hands a complete line over at once and
+            # the order on the descriptor does not depend on whether the Writer goes through std's buffer or not
+            marker = rng.choice(["", "", "case#%d\n" % k, "--\n", "ok\n"])
+            ops.append(["nx", marker, 1 if rng.chance(1, 4) else 0])
+        ops += with_moves(rng, part, 6)
+    return {"kind": "makeio-multi", "makeio": True, "sink": [1000000, 0, 0], "rt": rt, "ops": ops,
+            "out": [0, 0, 1, 2][rng.below(4)], "thr0": 1 if rng.chance(1, 4) else 0}
+
+
 def makeio_case(rng, i):
     if i % 8 == 7:      # more than the writer's buffer and more than a pipe holds
         ops = [["w", fill(rng, 97 + rng.below(26), BUF[0] + rng.range(1, 5000))], ["c", 10]] + token_script(rng)
@@ -824,12 +916,13 @@ def generate(rng, tier):
     for i in range(n_rand):
         r = rng.fork("s%d" % i)
         cases.append({"kind": "script", "sink": rand_sink(r), "rt": 2 if i % 4 == 3 else 0,
-                      "ops": with_moves(r, rand_script(r, r.range(1, 10)), 6)})
+                      "ops": with_renew(r.fork("nw"), with_moves(r, rand_script(r, r.range(1, 10)), 6), 5)})
     # 3. integer-only scripts, read back through Reader
     n_int = 350 if quick else 3000
     for i in range(n_int):
         r = rng.fork("i%d" % i)
-        cases.append({"kind": "ints-readback", "sink": rand_sink(r), "rt": 1, "ops": rand_script(r, r.range(1, 8), True)})
+        cases.append({"kind": "ints-readback", "sink": rand_sink(r), "rt": 1,
+                      "ops": with_renew(r.fork("nw"), rand_script(r, r.range(1, 8), True), 6)})
     # 3b. integers, string tokens, Vec<int>, tuples: read back element by element (rt 1) or with read_vec / the tuple
     #     impls (rt 3)
     for i in range(100 if quick else 1500):
@@ -841,7 +934,10 @@ def generate(rng, tier):
     for rep in range(reps):
         for d in ds:
             r = rng.fork("b%d/%d" % (rep, d))
-            cases.append(boundary_case(r, d))
+            c = boundary_case(r, d)
+            # a writer that dies with an almost full buffer, its successor over the same sink meets the next pieces
+            c["ops"] = with_renew(r.fork("nw"), c["ops"], 4)
+            cases.append(c)
     # 4a. pieces that fit exactly / by one byte more or less
     fits = fit_cases(rng.fork("fit"))
     # quick: the exact fits and '-' on the last byte for half of the pieces, a sixth of the neighbours
@@ -891,6 +987,9 @@ def generate(rng, tier):
     # 8. the real make_io! in a child process: stdout lock, drop at the end of the function
     for j in range(16 if quick else 160):
         cases.append(makeio_case(rng.fork("mio%d" % j), j))
+    # 8b. make_io! 2..4 times in sequence in ONE child process
+    for j in range(24 if quick else 240):
+        cases.append(makeio_multi_case(rng.fork("mio2/%d" % j), j))
     rng.shuffle(cases)   # spread the expensive cases over the batch files
     return cases
 
@@ -983,8 +1082,30 @@ def shrink(c):
                 for w in shrink_val(o[1])[:3]:
                     out.append(dict(c, dual=dict(d, other=oth[:i] + [["w", w]] + oth[i + 1:])))
     if c.get("makeio"):
-        plain = {k: v for k, v in c.items() if k != "makeio"}
-        out.insert(0, plain)     # the same script without the child process
+        plain = {k: v for k, v in c.items() if k not in ("makeio", "out", "thr0")}
+        pops = []
+        for o in ops:            # the same script without the child process: one writer after the other over one sink
+            if o[0] == "nx":
+                pops.append(["nw"])
+                if o[1]:
+                    pops.append(["w", ["s", o[1]]])
+            elif o[0] == "e":
+                pops.append(["w", o[1]])
+            else:
+                pops.append(o)
+        plain["ops"] = pops
+        out.insert(0, plain)
+        for key in ("out", "thr0"):
+            if c.get(key):
+                out.append(dict(c, **{key: 0}))
+        for i, o in enumerate(ops):
+            if o[0] == "nx" and (o[1] or o[2]):
+                out.append(dict(c, ops=ops[:i] + [["nx", "", 0]] + ops[i + 1:]))
+            elif o[0] == "e":
+                out.append(dict(c, ops=ops[:i] + [["w", o[1]]] + ops[i + 1:]))
+                for w in shrink_val(o[1])[:2]:
+                    if w[0] == "i" or w[1]:      # read::<String>() needs a token
+                        out.append(dict(c, ops=ops[:i] + [["e", w]] + ops[i + 1:]))
     if c.get("rt", 0):
         out.append(dict(c, rt=0))
     for i, o in enumerate(ops):
@@ -1095,7 +1216,9 @@ MANIFEST = {
             "text of any integer vector parses back to the values with a reader that accumulates digits as Reader does). "
             "The model is tied to the code on every run: scripted writes through the public API (String and &str of "
             "up to 3*BUF_SIZE+1 bytes with visible structure, pieces fitting the free space exactly, Vecs crossing the "
-            "buffer end, moved writers, two interleaved writers, the real make_io! in a child process) into sinks that "
+            "buffer end, moved writers, two interleaved writers, one writer after the other over one sink, the real "
+            "make_io! in a child process -- once, and 2..4 times in sequence in one process with print! in between, on "
+            "threads, reading stdin, standard output a pipe or a regular file) into sinks that "
             "accept 1..k bytes per call and return Interrupted, on a debug and a release executor (a third, buffered "
             "build with overflow checks must answer identically); Coq checks model = received "
             "bytes and received bytes = independent rendering (Z.to_int) for every case. The second check is also a "
